@@ -41,7 +41,7 @@ def criterion(k, apid):
                           (And((Cond(apid, "==", right_value="2", right_cal=False), Cond("SEL", "==", right_value="3", right_cal=False))),)),))),),
         # a text discriminator whose trailing blank is significant: TAG is 'HK', 'H ', ' K' or '  ' (by APID)
         (BoolExpr(Cond("TAG", "==", right_value="H ", right_cal=False)),),
-        # a discriminator whose Python type varies from packet to packet: XSEL (raw 2) is a float 2.0 in APID-1 packets (a context calibrator
+        # a discriminator whose Python type varies from packet to packet: XSEL (raw 2) is a float 2.0 in APID-0 packets, which come first (a context calibrator
         # applies) and a plain int 2 otherwise; it never equals 3
         (Cmp("XSEL", "==", "3"),),
     ][k]
@@ -58,7 +58,7 @@ def make_doc(n, parents, crits, abstract_bits, nest, children_first, other_names
     apid = names[3]
     pts = list(header_ptypes()) + [PType("SEL_T", "Integer", IntEnc(2)), PType("P6_T", "Integer", IntEnc(6)), PType("M_T", "Integer", IntEnc(8)),
                                    PType("CSEL_T", "Integer", IntEnc(2, default_cal=Poly(((2.0, 1),)))), PType("P4_T", "Integer", IntEnc(2)),
-                                   PType("XSEL_T", "Integer", IntEnc(2, ctx_cals=(CtxCal((Cmp(apid, "==", "1"),), Poly(((1.0, 1),))),))),
+                                   PType("XSEL_T", "Integer", IntEnc(2, ctx_cals=(CtxCal((Cmp(apid, "==", "0"),), Poly(((1.0, 1),))),))),
                                    PType("TAG_T", "String", StrEnc(Fixed(16), "US-ASCII"))]
     prs = list(header_params(names)) + [Param("SEL", "SEL_T"), Param("CSEL", "CSEL_T"), Param("XSEL", "XSEL_T"), Param("P6", "P4_T"), Param("TAG", "TAG_T")] + [Param(f"M{i}", "M_T") for i in range(1, n)] + [Param("NM", "M_T"), Param("TAILM", "M_T"), Param("LM", "M_T"), Param("RM", "M_T")]
     cnames = [root_name] + [f"C{i}" for i in range(1, n)]
@@ -144,7 +144,9 @@ def check_doc(t: Tally, spec, doc, defn, via):
     if PKTS is None:
         PKTS = packets()
     classes = set()
-    for pkt in PKTS:
+    # one definition object decodes all 16 packets: ascending for half of the documents, descending for the other half (a value that is a
+    # float in the APID-0 packets and an int elsewhere is met float-first in one order and int-first in the other)
+    for pkt in (PKTS if (sum(spec["crits"]) + spec["abstract_bits"]) % 2 == 0 else PKTS[::-1]):
         want = decode_packet(doc, pkt)
         obs = parse_one(defn, pkt, root=doc.root if doc.root != "CCSDSPacket" else None)
         t.evals += 1
